@@ -76,8 +76,26 @@ def independent_uses(ctx, R, rule):
                 n += 1
                 kind = x.value.attr if isinstance(x.value,
                                                   ast.Attribute) else '?'
-                if (f.qbase, kind) not in allowed:
-                    bad.append('%s %s' % (f.loc(x), src(x)))
+                if (f.qbase, kind) in allowed:
+                    continue
+                # a helper of that reload: read-only, and called (through
+                # helpers) from replace_all only
+                def only_from_replace_all(g, depth=0):
+                    if g.qbase == 'placement.objects.allocation:replace_all':
+                        return True
+                    cs = ctx.cg.callers.get(g, ())
+                    return bool(cs) and depth < 3 and all(
+                        only_from_replace_all(c, depth + 1) for c in cs)
+                top = f
+                while top.parent is not None:
+                    top = top.parent
+                reads_only = not any(op in 'IUD' for op, _t in
+                                     ctx.effects.summary(f))
+                if kind == 'reader' and reads_only and (
+                        only_from_replace_all(top)
+                        or only_from_replace_all(f)):
+                    continue
+                bad.append('%s %s' % (f.loc(x), src(x)))
     R.ob(rule, 'independent-transactions', not bad,
          'no write of a request runs in a transaction of its own: '
          '.independent is used only for the read-only provider reload of '
